@@ -94,6 +94,134 @@ def run_op(op):
     raise ValueError(kind)
 
 
+# ---------------------------------------------------------------------------------------------------------------
+# Forced interleavings: skops calls back into user objects (str() of table cells and metric values, __getstate__ while
+# dumping, __setstate__ while loading).  A Gate inside such a callback holds every thread until all of them are INSIDE
+# the same skops function, which is exactly the schedule under which state shared between calls shows -- without
+# relying on the interpreter to preempt at the right bytecode.
+class Gate:
+    def __init__(self, parties):
+        self.b = threading.Barrier(parties)
+
+    def wait(self):
+        try:
+            self.b.wait(timeout=1.5)
+        except threading.BrokenBarrierError:
+            try:
+                self.b.reset()
+            except Exception:
+                pass
+
+
+GATE = None
+
+
+class GateCell:
+    """a table cell / metric value whose text is taken while the other thread is inside the same formatter"""
+
+    def __init__(self, text):
+        self.text = text
+
+    def __str__(self):
+        if GATE is not None:
+            GATE.wait()
+        return self.text
+
+    __repr__ = __str__
+
+
+class GateState:
+    """an object whose state is taken (dump) / restored (load) while the other thread is in the middle of its own call"""
+
+    def __init__(self, payload):
+        self.payload = payload
+
+    def __getstate__(self):
+        if GATE is not None:
+            GATE.wait()
+        return {"payload": self.payload}
+
+    def __setstate__(self, st):
+        if GATE is not None:
+            GATE.wait()
+        self.__dict__.update(st)
+
+
+def forced_scenarios(k):
+    """scenario name -> function of the thread index; each returns a canonical, thread-specific result"""
+    import numpy as np
+    import skops.io as sio
+    from absval import fingerprint
+    from impl_codec import norm_schema
+    from skops.card import Card
+
+    def card_tables(t):
+        c = Card(None, template=None)
+        c.add_table(**{"T": {f"variant {t}": [GateCell(f"a{t}"), f"b{t}", GateCell(f"c{t}")], f"score {t}": [t, t + 0.5, GateCell(f"z{t}")]}})
+        c.add_metrics(**{f"m{t}": GateCell(f"{t}.5"), "acc": t})
+        c.add(**{f"S{t}": f"text {t}", f"S{t}/sub": "x"})
+        return [c.render(), c.get_toc(), repr(c)]
+
+    def dumps_objects(t):
+        obj = {"arr": np.arange(3 + t, dtype="<f8"), "gate": GateState(np.arange(5, dtype="<i8") * (t + 1)), "raw": bytes([t + 1]) * 4,
+               "after": [np.ones(2 + t), GateState([t, "x"])]}
+        data = sio.dumps(obj)
+        with zipfile.ZipFile(io.BytesIO(data)) as z:
+            names = [n for n in z.namelist() if n != "schema.json"]
+            schema = json.loads(z.read("schema.json"))
+            contents = sorted(hashlib.sha256(z.read(n)).hexdigest()[:12] for n in names)
+        sc, m = norm_schema(schema, names)
+        return [h(sc), m, contents]
+
+    pre = {}
+
+    def loads_objects(t):
+        data = pre[t]
+        back = sio.loads(data, trusted=sio.get_untrusted_types(data=data))
+        return [h(fingerprint(back))]
+
+    def prepare_loads():
+        global GATE
+        g, GATE = GATE, None
+        for t in range(k):
+            pre[t] = sio.dumps({"a": GateState(np.arange(4) + t), "b": [GateState({"k": t}), np.zeros(t + 1)]})
+        GATE = g
+    return {"card-tables": (card_tables, None), "dumps-getstate": (dumps_objects, None), "loads-setstate": (loads_objects, prepare_loads)}
+
+
+def forced_interleavings(parties=2, rounds=3):
+    global GATE
+    out = []
+    sc = forced_scenarios(parties)
+    for name, (fn, prep) in sc.items():
+        GATE = None
+        if prep:
+            prep()
+        want = [fn(t) for t in range(parties)]                 # sequential, no gate
+        for rnd_i in range(rounds):
+            GATE = Gate(parties)
+            got = [None] * parties
+
+            def worker(t):
+                try:
+                    got[t] = fn(t)
+                except Exception as e:  # noqa
+                    got[t] = ["exc:" + type(e).__name__ + ":" + str(e)[:120]]
+            ths = [threading.Thread(target=worker, args=(t,)) for t in range(parties)]
+            for th in ths:
+                th.start()
+            for th in ths:
+                th.join()
+            GATE = None
+            if got != want:
+                bad = [t for t in range(parties) if got[t] != want[t]]
+                out.append({"scenario": name, "round": rnd_i, "thread": bad[0], "sequential": str(want[bad[0]])[:400], "interleaved": str(got[bad[0]])[:400]})
+                break
+        else:
+            out.append({"scenario": name, "ok": True})
+    return out
+
+
 def module_state():
     from skops.io import _audit, _trusted_types, _utils
     from skops.card import _model_card, _markup
@@ -166,6 +294,7 @@ def main():
     for t in ths:
         t.join()
     sys.setswitchinterval(old)
+    forced = forced_interleavings(2, 3) + [dict(x, parties=3) for x in forced_interleavings(3, 1)]
     s1 = module_state()
     # separate Card instances never share sections or metrics
     from skops.card import Card
@@ -176,7 +305,7 @@ def main():
     c1.add_table(**{"T": {"x": [1]}})
     after = (c2.render(), c2.get_toc(), repr(getattr(c2, "_metrics", None)))
     json.dump({"first": r1, "after_history": r2, "threads": results, "module_state_changed": {k: [s0.get(k), s1.get(k)] for k in set(s0) | set(s1) if s0.get(k) != s1.get(k)},
-               "cards_independent": before == after, "card_before_after": [before, after]}, real_stdout, default=str)
+               "forced": forced, "cards_independent": before == after, "card_before_after": [before, after]}, real_stdout, default=str)
 
 
 if __name__ == "__main__":
